@@ -201,6 +201,82 @@ theorem objective_in_every_arch (g : DSG) (hw : g.WF = true) (m : Metric)
   refine permanent_in_every_arch g hw [] a ?_ _ (objective_only_if _ m h).2
   intro c k hk; simp [Assign.get] at hk
 
+/-! #### Shape of the classification: sorted, disjoint, exhaustive; objectives never report a reference value -/
+
+/-- Both classified lists come out sorted by metric name (the documented stable order). -/
+theorem classify_sorted (perm : List Node) (ms objs cons : List Metric)
+    (h : classify perm ms = some (objs, cons)) :
+    objs.Pairwise nameLE ∧ cons.Pairwise nameLE := by
+  unfold classify at h
+  simp only at h
+  split at h
+  · cases h
+  · simp only [Option.some.injEq, Prod.mk.injEq] at h
+    obtain ⟨rfl, rfl⟩ := h
+    exact ⟨(sorted_sortMetrics ms).filter _, (sorted_sortMetrics ms).filter _⟩
+
+/-- No metric is reported both as an objective and as a constraint. -/
+theorem classify_disjoint (perm : List Node) (ms objs cons : List Metric)
+    (h : classify perm ms = some (objs, cons)) (m : Metric) (ho : m ∈ objs) : m ∉ cons := by
+  have hm := classify_members perm ms objs cons h m
+  intro hc
+  have h1 := (hm.1.1 ho).2
+  have h2 := (hm.2.1 hc).2
+  rw [h1] at h2
+  cases h2
+
+/-- When classification succeeds every metric is an objective, a constraint, or unused: nothing is
+    dropped silently and nothing ambiguous survives. -/
+theorem classify_exhaustive (perm : List Node) (ms objs cons : List Metric)
+    (h : classify perm ms = some (objs, cons)) (m : Metric) (hm : m ∈ ms) :
+    m ∈ objs ∨ m ∈ cons ∨ roleOf perm m = .unused := by
+  have hmem := classify_members perm ms objs cons h m
+  have hamb : ¬ (classify perm ms = none) := by rw [h]; simp
+  rw [ambiguous_rejected] at hamb
+  cases hr : roleOf perm m with
+  | unused => exact Or.inr (Or.inr rfl)
+  | objective => exact Or.inl (hmem.1.2 ⟨hm, hr⟩)
+  | constraint => exact Or.inr (Or.inl (hmem.2.2 ⟨hm, hr⟩))
+  | ambiguous => exact absurd ⟨m, hm, hr⟩ hamb
+
+/-- The classified lists never hold more entries than there are metric nodes (no duplication). -/
+theorem classify_length (perm : List Node) (ms objs cons : List Metric)
+    (h : classify perm ms = some (objs, cons)) :
+    objs.length + cons.length ≤ ms.length := by
+  unfold classify at h
+  simp only at h
+  split at h
+  · cases h
+  · simp only [Option.some.injEq, Prod.mk.injEq] at h
+    obtain ⟨rfl, rfl⟩ := h
+    have hl : (sortMetrics ms).length = ms.length := (perm_sortMetrics ms).length_eq
+    rw [← hl]
+    generalize sortMetrics ms = s
+    induction s with
+    | nil => simp
+    | cons x xs ih =>
+      simp only [List.filter_cons, List.length_cons]
+      cases hr : roleOf perm x <;> simp <;> omega
+
+/-- An objective is only ever reported with the evaluator's value or NaN – never with a reference
+    value (that substitution is reserved for constraints whose node is absent). -/
+theorem objective_never_ref (arch : List Node) (objs cons : List Metric) (vals : List (Nat × Nat)) :
+    ∀ v ∈ (evaluate arch objs cons vals).1, v ≠ .ref := by
+  intro v hv
+  simp only [evaluate, List.mem_map] at hv
+  obtain ⟨m, _, rfl⟩ := hv
+  rcases lookupVal_given_or_nan vals m.name with ⟨w, _, hw⟩ | ⟨_, hw⟩ <;> rw [hw] <;> simp
+
+/-- A constraint whose node is present reports the evaluator's value or NaN, never the reference. -/
+theorem present_constraint_not_ref (arch : List Node) (objs cons : List Metric) (vals : List (Nat × Nat))
+    (i : Nat) (h : i < cons.length) (hpres : cons[i].node ∈ arch) :
+    ((evaluate arch objs cons vals).2)[i]? = some (lookupVal vals cons[i].name) ∧
+    lookupVal vals cons[i].name ≠ .ref := by
+  refine ⟨?_, ?_⟩
+  · have := (evaluate_values arch objs cons vals).2 i h
+    simpa [hpres] using this
+  · rcases lookupVal_given_or_nan vals cons[i].name with ⟨w, _, hw⟩ | ⟨_, hw⟩ <;> rw [hw] <;> simp
+
 /-! Non-vacuity -/
 example : roleOf [0, 1] ⟨0, 1, true, true, some .constraint⟩ = .constraint := by decide
 example : roleOf [0, 1] ⟨0, 1, true, true, none⟩ = .ambiguous := by decide
@@ -208,5 +284,7 @@ example : roleOf [0, 1] ⟨0, 5, true, false, none⟩ = .unused := by decide
 example : classify [0] [⟨1, 0, true, false, none⟩, ⟨0, 7, true, true, none⟩] =
     some ([⟨1, 0, true, false, none⟩], [⟨0, 7, true, true, none⟩]) := by decide
 example : evaluate [0] [⟨1, 0, true, false, none⟩] [⟨0, 7, true, true, none⟩] [(1, 42)] = ([.given 42], [.ref]) := by decide
+example : classify [0, 3] [⟨2, 3, true, false, none⟩, ⟨1, 0, true, false, none⟩, ⟨0, 7, true, true, none⟩, ⟨5, 9, false, false, none⟩] =
+    some ([⟨1, 0, true, false, none⟩, ⟨2, 3, true, false, none⟩], [⟨0, 7, true, true, none⟩]) := by decide
 
 end Adsg.C17
